@@ -83,6 +83,12 @@ func unboundCommands() []string {
 	return unboundCmds
 }
 
+// c01AllCommands lists (sorted) every command a Shell registers.
+func c01AllCommands() []string {
+	unboundCommands()
+	return allCmds
+}
+
 const c01Probe = "\x18\x1a" // C-x C-z + letter: commands bound by the case
 
 var c01Words = []string{"\u212a", "İ", "Ǆ", "foo", " ", "bar baz", "(a[b]{c})", "'q w'", "\"x\"", "https://ex.com/a?b=c", "0x1f", "true", "\\", "é", "世", "a", "-", "  ", "foo.bar/baz", "x=1;", "<>", "0", "9", "yes", "`", "$(x)", "\t"}
@@ -98,6 +104,7 @@ type c01Case struct {
 	Comp    bool        `json:"comp"`
 	Multi   bool        `json:"multi"`
 	Editor  string      `json:"editor"`            // missing | ok | fail
+	Every   bool        `json:"every,omitempty"`   // the every-command x argument family
 	Bound   []string    `json:"bound,omitempty"`   // commands without a default binding, bound to C-x C-z a, b, ...
 	Hilite  bool        `json:"hilite,omitempty"`  // the application sets a SyntaxHighlighter
 	Prompts []string    `json:"prompts,omitempty"` // further prompts the application sets: right, tooltip, secondary, transient
@@ -386,7 +393,41 @@ func c01Gen(r *rand.Rand, tier string, idx int) any {
 		n = r.Intn(4)
 	}
 	// numeric arguments stay within the stated bound: at most 4 digit characters per script
-	if idx%2 == 1 {
+	if cmds := c01AllCommands(); idx%4 == 3 && len(cmds) > 0 {
+		// every registered command x a hostile numeric argument, enumerated: the command is bound
+		// to a probe key by name and run on a shaped buffer, with a history whose newest line has
+		// two words (commands that index words, lines or entries by their argument)
+		k := idx / 4
+		c.Mode = pick(r, []string{"emacs", "emacs", "vi"})
+		c.Hist = []string{"one", "two words"}
+		c.Bound = []string{cmds[k%len(cmds)]}
+		args := []string{"\x1b-\x1b9", "\x1b-\x1b2", "\x1b0", "\x1b9\x1b9", "\x1b-", "\x1b-\x1b3", "\x1b2", "\x1b9", "\x1b-\x1b9\x1b9", ""}
+		arg := args[(k/len(cmds))%len(args)]
+		buf := pick(r, c01Shapes)
+		if buf != "" {
+			c.Plan = append(c.Plan, sess.Step{W: buf, Tag: "type"})
+		}
+		for i, n := 0, r.Intn(len([]rune(buf))+1); i < n; i++ {
+			c.Plan = append(c.Plan, sess.Step{W: "\x02", Tag: "move"})
+		}
+		if c.Mode == "vi" {
+			c.Plan = append(c.Plan, sess.Step{W: "\x1b", Tag: "esc"})
+			arg = strings.NewReplacer("\x1b-", "", "\x1b", "").Replace(arg) // a count: digits
+			if arg == "0" {
+				arg = ""
+			}
+		}
+		if arg != "" {
+			c.Plan = append(c.Plan, sess.Step{W: arg, Tag: "numeric-arg"})
+		}
+		c.Plan = append(c.Plan, sess.Step{W: c01Probe + "a", Tag: "every-command"})
+		if r.Intn(3) == 0 {
+			c.Plan = append(c.Plan, sess.Step{W: c01Arg(r, buf), Tag: "arg"})
+		}
+		c.Plan = append(c.Plan, genScript(r, c.Mode == "vi", r.Intn(3))...)
+		c.Plan = limitDigits(c.Plan, 6)
+		c.Every = true
+	} else if idx%2 == 1 {
 		c01GenDirected(r, &c, idx)
 		c.Plan = limitDigits(c.Plan, 4)
 	} else {
@@ -654,6 +695,9 @@ func c01Run(env *fw.Env, raw json.RawMessage) fw.Outcome {
 		case res.Returned:
 			o.Add("returned", 1)
 			o.Add("exit_"+c.ExitTag, 1)
+			if c.Every {
+				o.Add("every_command_x_argument_cases", 1)
+			}
 		case res.Abandoned:
 			// parked waiting for input after every exit key: allowed by the statement
 			o.Add("still_waiting_at_end", 1)
